@@ -1,2 +1,66 @@
+"""Model self-tests that use the repository's fixtures (run from check.py --selftest)."""
+import glob
+import io
+import os
+
+
+def _read(path):
+    try:
+        with io.open(path, "r", encoding="utf-16") as fd:
+            return fd.read()
+    except UnicodeError:
+        with io.open(path, "r", encoding="utf-8") as fd:
+            return fd.read()
+
+
 def run(repo):
-    return 0
+    from models import praat_text as PT
+
+    n = 0
+    # 1. number rendering round-trips
+    for x in (0.0, 1.0, 0.1 + 0.2, 1e-5, 5e-05, 1.2345678901234567e-17, 123456789012345.0, 1e15, 2.9999999999999996, 0.3):
+        for st in ("plain", "exp", "EXP", "int", "negzero"):
+            assert float(PT.render_number(x, st)) == x, (x, st)
+            n += 1
+    assert PT.render_number(1e-5, "plain") == "0.00001" and "e" in PT.render_number(1e-5, "exp")
+    # 2. writer -> reader identity, all layouts
+    data = {"xmin": 0.0, "xmax": 2.5, "tiers": [
+        {"class": "IntervalTier", "name": 'a "q" = 1', "xmin": 0.0, "xmax": 2.5, "entries": [(0.0, 1e-5, ""), (1e-5, 1.5, 'say "hi"\nthere ! not a comment'), (1.5, 2.5, '"')]},
+        {"class": "TextTier", "name": "item [2]:", "xmin": 0.0, "xmax": 2.5, "entries": [(0.25, 'intervals [1]:'), (2.0, '"IntervalTier"')]},
+        {"class": "IntervalTier", "name": "empty", "xmin": 0.0, "xmax": 2.5, "entries": []}]}
+    for text in (PT.write_long(data), PT.write_long(data, "exp", True, "\r\n"), PT.write_short(data), PT.write_short(data, "EXP", "\r\n")):
+        d = PT.read_textgrid(text)
+        assert d["xmin"] == 0.0 and d["xmax"] == 2.5 and [t["name"] for t in d["tiers"]] == [t["name"] for t in data["tiers"]]
+        for a, b in zip(d["tiers"], data["tiers"]):
+            assert a["entries"] == b["entries"] and a["class"] == b["class"], (a, b)
+        n += 1
+    for plain in (True, False):
+        d = PT.read_json(PT.write_json(data, plain))
+        assert [t["entries"] for t in d["tiers"]] == [t["entries"] for t in data["tiers"]]
+        n += 1
+    # a wrong declared size must be noticed
+    bad = PT.write_short(data).replace("\n3\n", "\n2\n", 1)
+    try:
+        PT.read_textgrid(bad)
+        raise AssertionError("wrong size not noticed")
+    except PT.SpecError:
+        n += 1
+    # 3. every TextGrid fixture shipped with the repository decodes, completely, to what praatio reads
+    from praatio.utilities import textgrid_io
+
+    files = sorted(set(glob.glob(os.path.join(str(repo), "tests", "files", "*.TextGrid")) + glob.glob(os.path.join(str(repo), "examples", "files", "*.TextGrid"))
+                       + glob.glob(os.path.join(str(repo), "tutorials", "**", "*.TextGrid"), recursive=True)))
+    assert len(files) >= 15, files
+    for f in files:
+        text = _read(f)
+        d = PT.read_textgrid(text)
+        ref = textgrid_io.parseTextgridStr(text, True)
+        assert float(ref["xmin"]) == d["xmin"] and float(ref["xmax"]) == d["xmax"], f
+        assert len(ref["tiers"]) == len(d["tiers"]), f
+        for a, b in zip(ref["tiers"], d["tiers"]):
+            assert a["class"] == b["class"] and a["name"] == b["name"], (f, a["name"], b["name"])
+            ea = [tuple(float(v) for v in e[:-1]) + (e[-1],) for e in a["entries"]]
+            eb = [tuple(e[:-1]) + (e[-1].strip(),) for e in b["entries"]]
+            assert ea == eb, (f, a["name"])
+        n += 1
+    return n
